@@ -523,10 +523,19 @@ class TBRMatchedMarkets:
       the set of feasible designs found given the design parameters,
         with their corresponding treatment/control groups and score.
     """
+    # Unspecified size ranges are filled in during the search: do so on a
+    # private copy and put the caller's parameter object back afterwards.
+    caller_parameters = self.parameters
+    self.parameters = copy.copy(caller_parameters)
+    try:
+      return self._greedy_search()
+    finally:
+      self.parameters = caller_parameters
+
+  def _greedy_search(self):
+    """Implements greedy_search(); self.parameters is a private copy."""
     budget_range = self.parameters.budget_range
     results = heapdict.HeapDict(size=self.parameters.n_designs)
-    # Unspecified size ranges are filled in below: do so on a private copy.
-    self.parameters = copy.copy(self.parameters)
 
     if self.parameters.treatment_geos_range is None:
       n_treatment = len(self.geo_assignments.t)
